@@ -55,7 +55,7 @@ def plan(tier, seed):
 
 def mandatory_bins(tier):
     b = ["offset_%d" % o for o in OFFSETS] + ["offset_random", "tag_order_not_sorted", "encrypted_component", "zero_components", "eight_tags",
-         "text_stream", "text_path", "bec2", "appnote_scripts", "block_cust_opened", "block_update_opened", "block_ecc_opened", "customer_key_in_slot", "histories_under_layout_hooks", "second_export_after_in_place_mutation", "more_than_255_components", "directory_larger_than_64k", "bec2_without_auth_blocks"]
+         "text_stream", "text_path", "bec2", "appnote_scripts", "block_cust_opened", "block_update_opened", "block_ecc_opened", "customer_key_in_slot", "histories_under_layout_hooks", "second_export_after_in_place_mutation", "more_than_255_components", "directory_larger_than_64k", "bec2_without_auth_blocks", "encrypted_payload_over_8k", "same_component_object_listed_twice"]
     b += ["blocks_" + "+".join(l) for l in GB.all_block_lists()]
     return b
 
@@ -92,13 +92,19 @@ def note_bins(ctx, case):
             ctx.bin("eight_tags")
 
 
-def run_bf3(ns, ctx, mon, case, key, offset, scratch, idx):
+def run_bf3(ns, ctx, mon, case, key, offset, scratch, idx, dup=False):
     rp = {"kind": "bf3", "case": case.to_json(), "key": key.hex(), "offset": offset}
     mon.current_replay = rp
     ctx.ev()
     ctx.distinct("bf3", case.digest_parts(), key, offset)
     note_bins(ctx, case)
     obj = G.build_real(ns, case)
+    if dup and obj.components:
+        # the SAME component object listed twice (e.g. one image stored under two slots): the hook derives the
+        # model from obj.components at call time, so the expected file simply has the entry and payload twice
+        j = ctx.rng.randrange(len(obj.components))
+        obj.components.insert(ctx.rng.randrange(len(obj.components) + 1), obj.components[j])
+        ctx.bin("same_component_object_listed_twice")
     try:
         obj.to_binary(offset, key)
         if idx % 3 == 0:
@@ -213,7 +219,13 @@ def run_shard(spec, ctx):
                 else:
                     off = OFFSETS[i % len(OFFSETS)]
                     ctx.bin("offset_%d" % off)
-                run_bf3(ns, ctx, mon, case, key, off, scratch, i)
+                run_bf3(ns, ctx, mon, case, key, off, scratch, i, dup=(i % 5 == 3))
+                if i == 2:
+                    # session-key encrypted payloads longer than any internal slice size a writer might use
+                    for ln in ((8192 + 16, 16400) if ctx.tier == "quick" else (8192, 8192 + 16, 16400, 3 * 8192 + 5, 65536 + 32)):
+                        big = G.Case([], [MComp([(0xC2, b"\x02"), (1, b"\x07")], rng.randbytes(ln), ln, True), MComp([(1, b"\x01")], b"tail", None, False)])
+                        ctx.bin("encrypted_payload_over_8k")
+                        run_bf3(ns, ctx, mon, big, key, 0, scratch, 5)
                 if i == 1 and spec.get("many"):
                     # more than 255 components: the entry MAC IV is the full 16-byte big-endian (1+index)
                     many = G.Case([], [MComp([(1, bytes([j % 256]))], bytes([j % 251 + 1]) * (1 + j % 3), None, False) for j in range(258)])
